@@ -37,7 +37,8 @@ def fmt_record(evs, holders, waiting, target):
 
 
 def fmt_case(init, ops):
-    return f'{init} ' + ' '.join(ops)
+    # for the limiter the cancellation of a holder's task is an exit
+    return f'{init} ' + ' '.join('x' + o[1:] if o[0] == 'k' else o for o in ops)
 
 
 # ------------------------------------------------------------------ level 1: the limiter alone
@@ -53,11 +54,13 @@ class Rig:
         self.hold = []
         self.waiting = []
         self.peak = 0
+        self.entered = set()
 
     async def worker(self, i):
         try:
             async with self.c:
                 self.evs.append(f'E{i}')
+                self.entered.add(i)
                 self.waiting.remove(i)
                 self.hold.append(i)
                 self.peak = max(self.peak, len(self.hold))
@@ -69,12 +72,15 @@ class Rig:
             self.evs.append(f'R{i}')
             self.waiting.remove(i)
         except asyncio.CancelledError:
+            if i in self.entered:
+                return              # a holder was cancelled: it left through __aexit__ (= an exit)
             self.evs.append(f'C{i}')
             if i in self.waiting:
                 self.waiting.remove(i)
 
     def act(self, op):
-        """op: 'e3' / 'x3' / 'c3' / 't2'; returns the record string."""
+        """op: 'e3' / 'x3' / 'c3' / 't2' / 'k3' (cancel the task of holder 3: for the limiter this
+        is an exit); returns the record string."""
         self.evs = []
         self.peak = 0           # in-flight only grows at entries: max over entries and the end
         k, n = op[0], int(op[1:])
@@ -89,6 +95,11 @@ class Rig:
                 self.evs.append('B')
         elif k == 'c':
             if n in self.waiting:
+                self.task[n].cancel()
+            else:
+                self.evs.append('B')
+        elif k == 'k':
+            if n in self.hold:
                 self.task[n].cancel()
             else:
                 self.evs.append('B')
@@ -140,7 +151,7 @@ class Oracle:
                 self.cap = max(self.cap, self.limit)
             if e[0] == 'R' and self.limit >= 1:
                 self.fail('c13:refused-at-positive-limit', f'{e} although the limit is {self.limit}')
-        if k == 'x' and 'B' not in evs:
+        if k in 'xk' and 'B' not in evs:
             # a lowered limit retires one excess permit per exit (decided before anybody is woken)
             pass
         if target_seen != self.limit:
@@ -174,7 +185,7 @@ def run_limiter_case(env, init, ops, tail=True):
     nid = [max([int(o[1:]) for o in ops if o[0] == 'e'], default=-1) + 1]
 
     def do(op):
-        is_exit = op[0] == 'x' and int(op[1:]) in rig.hold
+        is_exit = op[0] in 'xk' and int(op[1:]) in rig.hold
         if is_exit:
             orc.pre_exit()
         rec = rig.act(op)
@@ -323,7 +334,7 @@ def random_limiter_case(rng, allow_nonpos):
             nid += 1
         elif r < 0.65:
             i = rng.choice(live)
-            ops.append(f'x{i}')
+            ops.append(f'x{i}' if rng.random() < 0.75 else f'k{i}')
         elif r < 0.8:
             i = rng.choice(live)
             ops.append(f'c{i}')
